@@ -245,6 +245,133 @@ def _snap_equal(a, b):
     return True
 
 
+# ---------------------------------------------------------------------------------------------------
+# public routes: every public way in the anchored files (menpo/math/decomposition.py, menpo/model/pca.py) of building the
+# initial PCA state and of feeding an increment to it.  Each route is a letter run on the same data letters with the same
+# oracle, plus a route-agreement clause against the plain route (PCAVectorModel(...).increment(...)) on the same history.
+# route -> (how the initial batch is decomposed, how an increment is fed, which centring it exists for)
+# ---------------------------------------------------------------------------------------------------
+ROUTES = {
+    # module-level functions, state (U, l, m, n) threaded by hand
+    "ipca-infer": ("pca(X, centre)", "ipca(B, U, l, n, m_a=m) centred / ipca(B, U, l, n) uncentred: centring inferred, f omitted", (1, 0)),
+    "ipca-zeros": ("pca(X, centre=False)", "ipca(B, U, l, n, m_a=zeros(d)): documented as 'not centred'", (0,)),
+    "ipca-explicit": ("pca(X, centre, inplace=True)", "ipca(B, U, l, n, m_a=m, f=1.0, centred=c)", (1, 0)),
+    "ipca-positional": ("pca(X, centre)", "ipca(B, U, l, n, m, 1.0, 1e-10, c): everything positional", (1, 0)),
+    "pcacov": ("pcacov(C) of the numpy covariance", "ipca(..., centred=c)", (1, 0)),
+    "pcacov-inverse": ("pcacov(inv(C), is_inverse=True) - full-rank first batches only", "ipca(..., centred=c)", (1, 0)),
+    # classmethods of the models, then the method
+    "from-components": ("PCAVectorModel.init_from_components(pca(X))", "model.increment(B)", (1, 0)),
+    "from-covariance": ("PCAVectorModel.init_from_covariance_matrix(C, mean, n, centred)", "model.increment(B)", (1, 0)),
+    "from-inverse-covariance": ("PCAVectorModel.init_from_covariance_matrix(inv(C), ..., is_inverse=True) - full rank only", "model.increment(B)", (1, 0)),
+    "pcmodel-from-components": ("PCAModel.init_from_components(pca(X), mean PointCloud)", "model.increment([PointCloud])", (1, 0)),
+    "pcmodel-from-covariance": ("PCAModel.init_from_covariance_matrix(C, mean PointCloud, n, centred)", "model.increment([PointCloud])", (1, 0)),
+    "noinplace": ("PCAVectorModel(X, inplace=False) on the caller's own array", "model.increment(B, forgetting_factor=1.0)", (1, 0)),
+}
+ROUTE_DATA = ["gen", "zero", "lowrank", "zcol", "zmean"]
+FULL_RANK_ROUTES = ("pcacov-inverse", "from-inverse-covariance")
+
+
+def route_exists(route, d, centred, kind, b):
+    """fixed rule (never the seed): which (route, data letter, initial batch) combinations are defined."""
+    if centred not in ROUTES[route][2]:
+        return False
+    if route == "ipca-infer" and centred and kind == "zero":
+        return False  # documented: an all-zero m_a means 'not centred' when centred is left to be inferred
+    if route in FULL_RANK_ROUTES:
+        return kind in ("gen", "zmean") and d <= (b - 1 if centred else b)
+    return True
+
+
+class IpcaRoute(object):
+    """the module-level route: the caller keeps (U, l, m, n) and calls menpo.math.ipca.  Looks like a model to the oracle."""
+
+    def __init__(self, route, X0, centred):
+        from menpo.math import pca, pcacov
+
+        self.route, self.centred = route, bool(centred)
+        X0 = np.array(X0, dtype=np.float64, copy=True)
+        n, d = X0.shape
+        self.n_samples = n
+        self.argument_mutated = None
+        if route in ("pcacov", "pcacov-inverse"):
+            m = X0.mean(axis=0) if centred else np.zeros(d)
+            C = (X0 - m).T.dot(X0 - m) / (n - 1)
+            if route == "pcacov":
+                U, l = pcacov(C)
+            else:
+                U, l = pcacov(np.linalg.inv(C), is_inverse=True)
+        elif route == "ipca-explicit":
+            U, l, m = pca(X0, centre=bool(centred), inplace=True)
+        else:
+            keep = X0.copy()
+            U, l, m = pca(X0, centre=bool(centred))
+            if not np.array_equal(keep, X0):
+                self.argument_mutated = "pca(X) without inplace=True changed X"
+        self.U, self.l, self.m = U, l, m
+
+    components = property(lambda self: self.U)
+    eigenvalues = property(lambda self: self.l)
+    n_components = property(lambda self: len(self.l))
+    n_active_components = property(lambda self: len(self.l))
+
+    def mean(self):
+        return self.m
+
+    def increment(self, B):
+        from menpo.math import ipca
+
+        B = np.array(B, dtype=np.float64, copy=True)
+        U, l, m, n = self.U, self.l, self.m, self.n_samples
+        keep = (B.copy(), U.copy(), l.copy(), None if m is None else np.array(m, copy=True))
+        r, c = self.route, self.centred
+        if r == "ipca-infer":
+            out = ipca(B, U, l, n, m_a=m) if c else ipca(B, U, l, n)
+        elif r == "ipca-zeros":
+            m = np.zeros(B.shape[1])
+            keep = keep[:3] + (m.copy(),)
+            out = ipca(B, U, l, n, m_a=m)
+        elif r == "ipca-positional":
+            out = ipca(B, U, l, n, m, 1.0, 1e-10, c)
+        else:
+            out = ipca(B, U, l, n, m_a=m, f=1.0, centred=c)
+        for name, a, k in zip(("B", "U_a", "l_a", "m_a"), (B, U, l, m), keep):
+            if k is not None and not np.array_equal(a, k):
+                self.argument_mutated = "ipca changed its argument %s" % name
+        self.U, self.l, self.m = out
+        self.n_samples = n + B.shape[0]
+
+
+def build_route(route, X0, centred, pc_shape):
+    """(live object of the route, how to present an increment to it)."""
+    from menpo.math import pca
+    from menpo.model import PCAModel, PCAVectorModel
+    from menpo.shape import PointCloud
+
+    X0 = np.array(X0, dtype=np.float64, copy=True)
+    n, d = X0.shape
+    c = bool(centred)
+    if route in ("from-components", "pcmodel-from-components"):
+        U, l, m = pca(X0.copy(), centre=c)
+        if route == "from-components":
+            return PCAVectorModel.init_from_components(U, l, m, n, c)
+        return PCAModel.init_from_components(U, l, PointCloud(m.reshape(pc_shape).copy()), n, c)
+    if route in ("from-covariance", "from-inverse-covariance", "pcmodel-from-covariance"):
+        m = X0.mean(axis=0)  # the mean handed over is the sample mean; an uncentred model must ignore it
+        mc = m if c else np.zeros(d)
+        C = (X0 - mc).T.dot(X0 - mc) / (n - 1)
+        if route == "from-covariance":
+            return PCAVectorModel.init_from_covariance_matrix(C, m.copy(), n, centred=c)
+        if route == "from-inverse-covariance":
+            return PCAVectorModel.init_from_covariance_matrix(np.linalg.inv(C), m.copy(), n, centred=c, is_inverse=True)
+        return PCAModel.init_from_covariance_matrix(C, PointCloud(m.reshape(pc_shape).copy()), n, centred=c)
+    if route == "noinplace":
+        keep = X0.copy()
+        model = PCAVectorModel(X0, centre=c, inplace=False)
+        model._c11_argument_mutated = None if np.array_equal(keep, X0) else "PCAVectorModel(X, inplace=False) changed X"
+        return model
+    return IpcaRoute(route, X0, c)
+
+
 def _svals_ok(M):
     s = np.linalg.svd(M, compute_uv=False)
     if s[0] == 0:
@@ -281,7 +408,7 @@ def pca_data(seed, d, n, kind, b):
     """n x d data matrix of letter `kind`; deterministic redraw until every prefix (centred and raw) has an
     unambiguous numerical rank."""
     for attempt in range(200):
-        r = rs(seed, "c11-pca", d, n, kind, b if kind == "zero" else 0, attempt)
+        r = rs(seed, "c11-pca", d, n, kind, b if kind in ("zero", "zmean") else 0, attempt)
         if kind == "gen":
             k = min(n - 1, d)
             u, _ = np.linalg.qr(r.randn(n, n))
@@ -297,6 +424,17 @@ def pca_data(seed, d, n, kind, b):
             X = r.randn(n, 2).dot(r.randn(2, d)) * 1.5 + 3.0 * r.rand(d)
         elif kind == "int":
             X = r.randint(0, 16, size=(n, d)).astype(np.float64)
+        elif kind == "zcol":
+            # a feature that is exactly 0 in every sample (planar 3-d points, a masked pixel): its mean coordinate is exactly 0
+            X = r.randn(n, d) * (1.0 + np.arange(d)) * 0.8 + 3.0 * r.rand(d)
+            X[:, min(2, d - 1)] = 0.0
+        elif kind == "zmean":
+            # one coordinate whose mean over the first batch is exactly 0 although it varies (dyadic values); later samples move it
+            X = r.randn(n, d) * (1.0 + np.arange(d)) * 0.8 + 3.0 * r.rand(d)
+            col = min(1, d - 1)
+            X[:, col] = r.randint(-24, 25, size=n) / 8.0
+            X[b - 1, col] = -X[: b - 1, col].sum()
+            X[b:, col] += 1.25
         else:
             raise ValueError(kind)
         ok = True
@@ -307,6 +445,9 @@ def pca_data(seed, d, n, kind, b):
                 break
         if ok and kind == "zero":
             ok = bool(np.all(np.mean(X[:b], axis=0) == 0))
+        if ok and kind == "zmean":
+            mb = np.mean(X[:b], axis=0)
+            ok = bool(mb[min(1, d - 1)] == 0 and np.sum(mb == 0) == 1 and np.ptp(X[:b, min(1, d - 1)]) > 0)
         if ok:
             return X
     raise RuntimeError("general-position guard could not be satisfied for %r" % ((d, n, kind, b),))
@@ -491,6 +632,17 @@ class C11(Check):
                         for feed in PCA_FEED:
                             for b in range(2, n):
                                 out.append(("pca", d, n, centred, kind, feed, 1, b))
+        # the exactly-zero feature letters on the plain route, and every public route on every data letter
+        for n in [6] if self.tier == "quick" else [6, 8]:
+            for d in ds:
+                for centred in (1, 0):
+                    for kind in ROUTE_DATA:
+                        for b in range(2, n):
+                            if kind in ("zcol", "zmean"):
+                                out.append(("pca", d, n, centred, kind, "array", 1, b))
+                            for route in ROUTES:
+                                if route_exists(route, d, centred, kind, b):
+                                    out.append(("pca", d, n, centred, kind, "route:" + route, 1, b))
         # argument forms: integer valued payload presented in every form of FORMS
         for n in [6] if self.tier == "quick" else [6, 8]:
             for d in ds:
@@ -563,6 +715,13 @@ class C11(Check):
         feed = st["feed"]
         if feed.startswith("form:"):
             return self._feed_form(st, rows, initial)
+        if feed.startswith("route:"):
+            rows = np.array(rows, dtype=np.float64, copy=True)
+            if feed.startswith("route:pcmodel-"):
+                from menpo.shape import PointCloud
+
+                return [PointCloud(r.reshape(st["pc_shape"]).copy()) for r in rows], {}
+            return rows, ({"forgetting_factor": 1.0} if feed == "route:noinplace" else {})
         rows = np.array(rows, copy=True)  # the model centres its input in place (inplace=True is the default)
         if feed == "array":
             return rows, {}
@@ -579,12 +738,15 @@ class C11(Check):
         from menpo.model import PCAModel, PCAVectorModel
 
         _, d, n, centred, kind, feed, merge, b = root
-        X = pca_data(self.seed, d, n, kind, b if kind == "zero" else 0)
+        X = pca_data(self.seed, d, n, kind, b if kind in ("zero", "zmean") else 0)
         st = {"fam": "pca", "root": root, "X": X, "n": n, "d": d, "centred": bool(centred), "feed": feed, "merge": merge, "consumed": b, "hist": (), "pc_shape": _pc_shape(d), "scale": max(1.0, float(np.abs(X).max()))}
         st["tolx"] = 1e4 if feed.startswith("form:") and FORMS[feed[5:]][2] else 1.0
         data, kw = self._feed_pca(st, X[:b], initial=True)
         cls = PCAModel if feed in ("pc", "pciter") else PCAVectorModel
-        st["model"], st["error"] = _try(lambda: cls(data, centre=bool(centred), **kw))
+        if feed.startswith("route:"):
+            st["model"], st["error"] = _try(lambda: build_route(feed[6:], X[:b], centred, st["pc_shape"]))
+        else:
+            st["model"], st["error"] = _try(lambda: cls(data, centre=bool(centred), **kw))
         st["ref"] = pca_definition(X[:b], bool(centred))
         return st
 
@@ -761,7 +923,9 @@ class C11(Check):
         rows = st["X"][c0 : c0 + j]
         m = st["model"]
         if st["fam"] == "pca":
-            zero_mean = st["centred"] and bool(np.all(_vec(m.mean()) == 0))
+            mean_before = _vec(m.mean())
+            zero_mean = st["centred"] and bool(np.all(mean_before == 0))
+            zero_coord = st["centred"] and bool(np.any(mean_before == 0)) and not zero_mean
             ncomp_before = int(m.n_components)
             data, kw = self._feed_pca(st, rows)
         else:
@@ -795,16 +959,22 @@ class C11(Check):
         else:
             fails += self._compare(st, o, batch, sc, "", "menpo batch model of the %d samples consumed" % c, op)
         fails += self._compare(st, o, ref, sc, "-vs-definition", "definition on the %d samples consumed" % c, op)
+        fails += self._route_clauses(st, o, sc, op)
         # outcome classes
         if st["fam"] == "pca":
             fam = "pca-inc"
+            if zero_coord:
+                self.note("%s:running-mean-has-an-exactly-zero-coordinate" % fam)
+            if st["feed"].startswith("route:"):
+                self.note("pca-route:%s" % st["feed"][6:])
             self.note("%s:%s" % (fam, "prefix<=d(gram-path)" if c <= st["d"] else "prefix>d(covariance-path)"))
             self.note("%s:%s" % (fam, "rank-grew" if len(ref["eig"]) > ncomp_before else "rank-unchanged"))
             if zero_mean:
                 self.note("%s:running-mean-exactly-zero" % fam)
             self.note("%s:%s" % (fam, "centred" if st["centred"] else "uncentred"))
             self.note("pca-data:%s" % st["root"][4])
-            self.note(("pca-form:%s" % st["feed"][5:]) if st["feed"].startswith("form:") else ("pca-feed:%s" % st["feed"]))
+            if not st["feed"].startswith("route:"):
+                self.note(("pca-form:%s" % st["feed"][5:]) if st["feed"].startswith("form:") else ("pca-feed:%s" % st["feed"]))
             self.note("pca-chunk:%s" % ("one-sample" if j == 1 else "several"))
         else:
             self.note("gmrf-graph:%s" % st["g"])
@@ -816,6 +986,36 @@ class C11(Check):
             self.note("gmrf-chunk:%s" % ("one-sample" if j == 1 else "several"))
         self.note("%s:%s" % ("pca-step" if st["fam"] == "pca" else "gmrf-step", "agrees" if not fails else "differs"))
         self.note("history:%s" % ("first-increment" if len(st["hist"]) == 1 else "later-increment"))
+        return fails
+
+    def _route_clauses(self, st, o, sc, op):
+        """route agreement: the same history through the plain route (constructor + increment method) gives the same
+        model; a route must not write into what the caller handed over; method and property forms of the mean agree."""
+        fails = []
+        m = st["model"]
+        where = self._where(st)
+        if st["fam"] == "pca" and st["feed"].startswith("route:"):
+            from menpo.model import PCAVectorModel
+
+            b = st["root"][7]
+            twin = PCAVectorModel(np.array(st["X"][:b], copy=True), centre=st["centred"])
+            pos = b
+            for j in st["hist"]:
+                twin.increment(np.array(st["X"][pos : pos + j], copy=True))
+                pos += j
+            twin_state = dict(st)
+            twin_state["model"] = twin
+            fails += self._compare(st, o, self._observe(twin_state), sc, "-route-agreement", "plain route PCAVectorModel(first batch).increment(...) on the same chunks", op)
+            mutated = getattr(m, "argument_mutated", None) or getattr(m, "_c11_argument_mutated", None)
+            if mutated:
+                fails.append(Failure(where, "route-changed-callers-data", "%s (root %r, increments %r)" % (mutated, st["root"], st["hist"])))
+            self.note("pca-route-agreement:%s" % ("agrees" if not fails else "differs"))
+        # method and property forms of the same quantity
+        if hasattr(m, "mean_vector") and callable(getattr(m, "mean", None)):
+            a, b_ = _vec(m.mean()), np.asarray(m.mean_vector, dtype=float)
+            if a.shape != b_.shape or not np.array_equal(a, b_):
+                fails.append(Failure(where, "mean-method-vs-property", "mean() and mean_vector differ (root %r, increments %r)" % (st["root"], st["hist"])))
+            self.note("mean-method-vs-property:%s" % st["fam"])
         return fails
 
     @staticmethod
@@ -916,6 +1116,8 @@ class C11(Check):
             "gmrf-k:1",
             "gmrf-k:2",
         ]
+        need += ["pca-route:%s" % r for r in ROUTES] + ["pca-data:zcol", "pca-data:zmean", "pca-inc:running-mean-has-an-exactly-zero-coordinate", "pca-route-agreement:agrees"]
+        need += ["mean-method-vs-property:pca", "mean-method-vs-property:gmrf"]
         need += ["pca-refusal:%s" % k for k in sorted(set(REFUSAL_KIND[r] for v in PCA_REFUSALS.values() for r in v))]
         need += ["gmrf-refusal:%s" % k for k in sorted(set(REFUSAL_KIND[r] for v in GMRF_REFUSALS.values() for r in v))]
         need += ["pca-refusal-letter:%s" % r for r in sorted(set(r for v in PCA_REFUSALS.values() for r in v))]
@@ -949,6 +1151,8 @@ class C11(Check):
             "pca_d": ds,
             "pca_data_letters": PCA_DATA,
             "pca_feed_letters": PCA_FEED,
+            "public_routes": {r: {"initial_batch": v[0], "increment": v[1], "centring": ["uncentred", "centred"][min(v[2]) :] if len(v[2]) == 2 else ["uncentred"]} for r, v in ROUTES.items()},
+            "route_data_letters": ROUTE_DATA,
             "refused_call_letters": {"pca": PCA_REFUSALS, "gmrf": GMRF_REFUSALS, "kinds": REFUSAL_KIND},
             "argument_forms": {f: {"also_initial_batch": bool(v[0]), "gmrf": bool(v[1]), "single_precision_tolerance_x1e4": bool(v[2])} for f, v in FORMS.items()},
             "pca_compositions_per_n": {str(n): 2 ** (n - 2) for n in ns},
@@ -970,6 +1174,9 @@ class C11(Check):
             "refuses integer and read-only input (it centres in place), so those forms are fed to increment() only; np.matrix is refused / mis-indexed; bool is not a sample matrix",
             "refused-call letters exist only where the tree refuses: NaN / inf samples are accepted silently by the GMRF (and an empty block by the uncentred PCA model), so they are "
             "not refusals at all; the GMRF shape refusals (wrong number of features, 1-d, 3-d, one-column) are letters since fix D36",
+            "public routes are those of ROUTES (module-level pca / pcacov / ipca with centring inferred, given by keyword or positionally, init_from_components / init_from_covariance_matrix of "
+            "both model classes, inplace=False, forgetting_factor=1.0 given); the route `ipca-infer` is not run on the centred `zero` letter because ipca documents an all-zero m_a as "
+            "'not centred' when `centred` is not passed; the inverse-covariance routes exist only where the first batch has full rank (d = 3)",
             "'random chunkings for larger n' of the quantifier are sampling and outside the technique; every composition of every n in scope is covered instead",
             "states reached by different chunkings of the same prefix are merged when their observations agree within a tenth of the tolerance (after their own step oracle passed); "
             "merge=0 roots and the thorough-tier confluence re-expansion do not rely on that abstraction",
